@@ -109,6 +109,14 @@ MANIFEST_TEXT = {
                "the true sender), and predicts every other client's observations without reference to monitors, so any influence of a monitor on others is a mismatch; a monitor that "
                "sends must be disconnected; its names, rules and reply obligations must be gone.",
                "DESIGN.md section 4 C18", "deterministic simulation, seeded history search, model-based oracle on recorded history"),
+    "C14": _mt("Fault enumeration over the daemon's request handlers: for each sampled (history, operation) — Hello, RequestName (free / queued / replacing), ReleaseName, AddMatch, "
+               "RemoveMatch, BecomeMonitor, a routed unicast, a broadcast, a reply consuming a slot, queries — one fault-free execution counts the allocations n made while the bus "
+               "processes the operation, then the plan is re-executed with allocation k failing for EVERY k in 0..n-1 (dbus's own _dbus_set_fail_alloc_counter). After each, with "
+               "injection off, exactly two worlds are admissible and compared in full against the model: the complete effect (every signal, reply, state change), or nothing but a "
+               "NoMemory error to the requester; then the operation is retried and must end in the fault-free result; rules and names per connection are also counted white-box; "
+               "dbus_malloc blocks and descriptors must be back at baseline after shutdown. Library-side operations (message build/copy/edit, rule and config parsing) are not yet covered.",
+               "DESIGN.md section 4 C14", "deterministic re-execution with exhaustive enumeration of the failing allocation index per sampled (history, operation)",
+               note=_SIMBUS_NOTE + " Exhaustive in k for each sample; histories and operations are sampled. Six genuine OOM-atomicity defects of the daemon are listed in known_findings.json and reported as KNOWN-FINDING."),
 }
 
 NOT_APPLICABLE = [
@@ -118,6 +126,6 @@ NOT_APPLICABLE = [
 ]
 
 # properties whose check is planned but not finished: not claimed, and listed in not_applicable with that reason
-NOT_CLAIMED_YET = ["C01", "C08", "C11", "C14", "C15", "C17", "C19", "C20"]
+NOT_CLAIMED_YET = ["C01", "C08", "C11", "C15", "C17", "C19", "C20"]
 for _p in NOT_CLAIMED_YET:
     NOT_APPLICABLE.append({"property_id": _p, "reason": "not claimed yet: the simulation check for this property is designed (DESIGN.md section 4) but not finished; it is applicable to the technique and will be claimed when its check passes the determinism and sensitivity gates"})
